@@ -29,7 +29,7 @@ ASSUMPTIONS = ["nvmon.ref exact reference for vertex positions (uv within 1e-12 
 FLOORS = {'quick': {'topology': 150, 'vertex-on-surface': 1500, 'quads': 100, 'trim-cells': 1000, 'obj': 60, 'off': 60, 'stl-ascii': 60,
                     'stl-binary': 60, 'container': 30},
           'thorough': {'topology': 1500, 'vertex-on-surface': 15000, 'trim-cells': 10000}}
-MANDATORY_TAGS = ['spacing1', 'spacing>=2', 'spacing>=3', 'rational', 'trim:freeform', 'trim:spline', 'trim:reversed', 'trim:clockwise', 'trim:non-unit-domain', 'trim:added-after-tessellation', 'trim:setter-replaces', 'container', 'container:tessellator-replaced', 'quad:as-surface-tessellator',
+MANDATORY_TAGS = ['spacing1', 'spacing>=2', 'spacing>=3', 'rational', 'trim:freeform', 'trim:spline', 'trim:reversed', 'trim:clockwise', 'trim:non-unit-domain', 'trim:added-after-tessellation', 'trim:setter-replaces', 'tessellator:reinstalled-after-edit', 'container', 'container:tessellator-replaced', 'quad:as-surface-tessellator',
                   'quad', 'non-unit-domain', 'export:file']
 TECHNIQUE = ("runtime monitoring: structural + exact-geometric oracle over every tessellation the workload produces (ids, indices, "
              "orientation, exact area cover, edge incidence, Euler characteristic, vertex = surface(uv)), cell-classification oracle "
@@ -402,6 +402,21 @@ def check_plain(case, ctx):
                   abs(vq[0] - dom[1][0]) < 1e-12 and abs(vq[-1] - dom[1][1]) < 1e-9, 'quads/stored-parameters',
                   'quad vertices do not store the %dx%d sampled grid over the domain as their parameters (distinct u: %d, distinct v: %d)'
                   % (nu, nv, len(uq), len(vq)), what='quads')
+    # ---- a tessellation component taken off the surface and installed again later (after an edit) must not bring its old mesh back ------
+    if rng.random() < 0.4:
+        from geomdl import operations
+        o3 = G.build(sd)
+        o3.sample_size_u, o3.sample_size_v = nu, nv
+        first = o3.tessellator
+        o3.vertices
+        o3.tessellator = tessellate.QuadTessellate() if rng.random() < 0.5 else tessellate.TrimTessellate()
+        o3.faces
+        shift = [rng.uniform(2, 5) * sc for _ in range(3)]
+        operations.translate(o3, shift, inplace=True)
+        o3.tessellator = first
+        ctx.tag('tessellator:reinstalled-after-edit')
+        S3 = G.defn_of(o3)
+        vertices_on_surface(ctx, S3, o3.vertices, dom, so.scale_of_defn(S3), rng, 'mesh/stale-after-tessellator-reinstalled', limit=12)
     # ---- exports ---------------------------------------------------------------------------------------------------------------------
     check_exports(ctx, rng, o, [o], sp, sc, as_file=rng.random() < 0.4)
 
